@@ -165,10 +165,11 @@ func (server *Server) Scan(conn *redis.Conn, cursor int, opt redis.ScanOption) (
 	keys := db.Keys()
 	sort.Strings(keys)
 	matchKeys := proto.NewArray()
+	// The cursor is the index of the first key that has not been visited yet;
+	// 0 starts an iteration and, as the returned cursor, ends it.
 	lastCursor := 0
 	for n, key := range keys {
-		lastCursor = n
-		if 0 < cursor && n <= cursor {
+		if n < cursor {
 			continue
 		}
 		if !opt.MatchPattern.MatchString(key) {
@@ -176,11 +177,11 @@ func (server *Server) Scan(conn *redis.Conn, cursor int, opt redis.ScanOption) (
 		}
 		matchKeys.Append(redis.NewBulkMessage(key))
 		if opt.Count <= matchKeys.Size() {
+			if (n + 1) < len(keys) {
+				lastCursor = n + 1
+			}
 			break
 		}
-	}
-	if lastCursor == len(keys) {
-		lastCursor = 0
 	}
 	array := proto.NewArray()
 	array.Append(redis.NewBulkMessage(strconv.Itoa(lastCursor)))
